@@ -1,4 +1,6 @@
 """C04 — timing: no early shots; discard_overflow bounds lateness to the 2 s window."""
+import os
+
 from vlib import common
 
 
@@ -13,6 +15,8 @@ def key_fn(case, obs, verdict):
         return "cli.readConfig:" + v[4:]
     if v.startswith("ph:"):
         return "engine+phout:" + v[3:]
+    if v.startswith("first:"):
+        return "schedule(self-starting)+coreutil.Waiter:simultaneous-first-tokens:" + v[6:]
     if v.startswith("comp:"):
         return "schedule.composite+coreutil.Waiter:" + v[5:]
     if v.startswith("pool:"):
@@ -22,20 +26,42 @@ def key_fn(case, obs, verdict):
     return "C04:" + v
 
 
+def translate_sync(ctx):
+    """harness/cmd/trC02 schedsync (C02's translator binary, used read-only): the synchronisation skeleton of
+    core/schedule/do_at.go / start_sync.go -> coq/Gen/SchedSyncGen.v, the programs Properties/C04_leaf.v is about
+    (bridge Gen/WaiterLeaf_bridge.v)."""
+    tr = ctx.build_harness("trC02")
+    if tr is None:
+        return False
+    tmp = os.path.join(ctx.work, "SchedSyncGen.v")
+    rc, out = common.sh([tr, "schedsync", common.REPO, tmp], timeout=300, env=common.goenv())
+    if rc != 0:
+        ctx.broken("translator 'trC02 schedsync' could not re-read do_at.go / start_sync.go "
+                   "(a construct outside the grammar of the leaf's synchronisation skeleton)", out)
+        return False
+    if common.write_if_changed(os.path.join(common.COQ, "Gen", "SchedSyncGen.v"), open(tmp).read()):
+        ctx.log("regenerated Gen/SchedSyncGen.v (changed)")
+    return True
+
+
 def run(ctx):
+    translate_sync(ctx)
     common.standard(
         ctx, harness="hC04", extracted="C04_model", driver_dir="C04",
         rule=("non-trivial: w cases with >= 2 Wait calls or a token that is >= 2 s late / judged slow; "
               "eng cases in which some token is >= 2 s late at Shoot entry or discard report; prof cases with an unlimited tail or a token >= 2 s late; "
               "pool cases with more than one instance or a token >= 2 s late / discarded; "
-              "comp cases always; st and near cases always; distinct = distinct case lines"),
+              "comp and first cases always; st and near cases always; distinct = distinct case lines"),
         key_fn=key_fn,
         translators=[("consts", "ConstGen.v"), ("gofn-waiter", "GoFnWaiterGen.v"), ("pooldeps", "PoolDepsGen.v")],
-        bridge_files=["Gen/Waiter_bridge.v", "Gen/GoFnWaiter_bridge.v", "Gen/PoolDeps_bridge.v"],
+        bridge_files=["Gen/Waiter_bridge.v", "Gen/GoFnWaiter_bridge.v", "Gen/PoolDeps_bridge.v",
+                      "Properties/C04_leaf.v", "Gen/WaiterLeaf_bridge.v"],
         trusted=[
             "translator harness/cmd/translate consts (MaxOverdueDuration, DiscardedShootCodeError, DiscardedShootTag compiled from /repo)",
             "translator harness/cmd/translate pooldeps (the boolean expressions carrying discard_overflow: startInstances' instanceSharedDeps literal, "
             "buildNewInstanceSchedule's own-schedule condition, instance.Run's fire condition and discard report, re-read from core/engine; phoutAggregator.Report being exactly a plain send and Run draining the channel, re-read from core/aggregator/netsample/phout.go)",
+            "translator harness/cmd/trC02 schedsync (C02's; the synchronisation skeleton of core/schedule/do_at.go Next/Start/Left and start_sync.go, "
+            "re-read into Gen/SchedSyncGen.v; Gen/WaiterLeaf_bridge.v); Proofs/SchedLeafConcProofs.v leaf_one_start (C02's lemma) is used by C04_first_tokens_configured",
             "extraction: ExtrOcamlBasic only; OCaml driver ocaml/C04/main.ml + ocaml/common/conv.ml",
             "correspondence harness harness/cmd/hC04: real coreutil.Waiter on a mock schedule and real engine with a slow mock gun; "
             "booleans/inequalities only, planned margins >= 250 ms; an attempt during which a canary goroutine saw the machine unable to keep time (5 ms sleep overshooting by > 50 ms) is repeated",
